@@ -119,6 +119,18 @@ def regen_c12(status):
     regen_report_types(status)
 
 
+def regen_modifier_tables(status):
+    from .translate import modifier_tables
+
+    def produce():
+        src = common.read(os.path.join(common.SRC, 'modifier_parser.py'))
+        text, meta = modifier_tables.translate(src)
+        meta['input_sha'] = common.sha(text)
+        return text, meta
+
+    _one('modifier_tables', 'TallyVerif/Gen/ModifierTables.lean', 'TallyVerif.Gen.ModifierTables', produce, status)
+
+
 def regen_all():
     status = {}
     regen_classification(status)
@@ -128,4 +140,5 @@ def regen_all():
     regen_fs_steps(status)
     regen_report_types(status)
     regen_amount_tables(status)
+    regen_modifier_tables(status)
     return status
